@@ -683,7 +683,7 @@ func intParamIndex(f *ssa.Function) int {
 }
 
 var ruleCap = &core.Rule{ID: "R16.2", Min: 8,
-	Doc: "depth-guarded recursion: entry guard depth > cap => return 0 dominates all intra-SCC calls; depth argument never decreases and grows on every cycle; every construction of the scanner state installs a positive constant cap and nothing overwrites it; the guard rejects exactly depths above the cap",
+	Doc: "depth-guarded recursion: entry guard depth > cap => return 0 dominates all intra-SCC calls; depth argument never decreases and grows on every cycle; every construction of the scanner state installs a positive constant cap and nothing overwrites it (a whole-state reset must restore the cap it loaded before); wrappers outside the family run on the caller's state only; the guard rejects exactly depths above the cap",
 	Run: func(c *core.Ctx, s *core.Sink) {
 		m := getJSON(c)
 		if m.capF < 0 || m.guardFn == nil {
@@ -1080,7 +1080,7 @@ func findCycle(adj map[*ssa.Function][]*ssa.Function) string {
 
 // R08.3 (structural part): provenance of the scanner entry's results.
 var ruleParseResults = &core.Rule{ID: "R08.3", Min: 4,
-	Doc: "the scanner entry reports the scanner's own state: result 0 is the top-level scanner result (or 0 under the failure flag), results 1.. are loads of fields of the pooled state, unmodified; the inspected-bytes field is only ever reset to 0 or incremented by 1",
+	Doc: "the scanner entry reports the scanner's own state: result 0 is the top-level scanner result (or 0 under the failure flag), results 1.. are loads of fields of the pooled state, unmodified; the inspected-bytes field is only ever reset to 0, incremented by 1, or advanced once by a deferred settlement whose amount R08.6 checks (a loop counter, or the position a whole function reports)",
 	Run: func(c *core.Ctx, s *core.Sink) {
 		m := getJSON(c)
 		f := m.parse
@@ -1159,7 +1159,7 @@ var ruleParseResults = &core.Rule{ID: "R08.3", Min: 4,
 // R08.6: accounting pairing between the consumed-bytes count a scanner
 // function returns and the inspected-bytes counter.
 var ruleAccounting = &core.Rule{ID: "R08.6", Min: 18,
-	Doc: "inspected/consumed pairing: in every scanner function, within each straight-line region, the constant increments of the value that becomes the returned consumed-bytes count equal the number of +1 increments of the inspected-bytes counter (callee results account for themselves); the literal scanner, which returns len(literal), counts one inspected byte per matched byte; so on every success return the inspected counter grew by exactly the returned length",
+	Doc: "inspected/consumed pairing: in every scanner function, within each straight-line region, the constant increments of the value that becomes the returned consumed-bytes count equal the number of +1 increments of the inspected-bytes counter (callee results account for themselves); the literal scanner, which returns len(literal), counts one inspected byte per matched byte; recognised equivalents: a loop that only counts followed by one `ib += counter` dominating every return; a scanner-free function settling `ib += position` once and returning 0 or that position; position-passing wrappers of the family; so on every success return the inspected counter grew by exactly the returned length",
 	Run: func(c *core.Ctx, s *core.Sink) {
 		m := getJSON(c)
 		ibF := -1
